@@ -32,6 +32,65 @@ OPCODE = dict(enable_fit=0, disable_fit=1, set_mode=2, set_boundary=3, set_facto
               enable_derived=6, disable_derived=7, compile=8, update_model=9)
 
 
+# ----------------------------------------------------------------------------- source tie (harness/translate_py.py)
+# The retrieval set-up code of taurex/optimizer/optimizer.py, regenerated as Lean on every run (TaurexModel/Gen/SrcC07.lean)
+# and proved equal to TaurexModel/OptimizerSM.lean in Props/C07Src.lean.
+#   ν names, L latex strings, G / S the bound getters / setters stored in the parameter tuples (opaque; calling one reads /
+#   writes the WORLD `w : W`, the attribute values behind them), ρ prior objects (opaque: constructors, `prior`, `priorMode`
+#   are function parameters, tied to taurex/core/priors.py by Props/C08Src.lean).
+_OPT = 'taurex/optimizer/optimizer.py'
+_TV = {'ν': 'deq', 'L': '', 'G': dict(call=('read', [], 'α'), lean='call_fget'),
+       'S': dict(call=('write', ['α'], 'unit'), lean='call_fset'), 'ρ': '', 'W': ''}
+_TY = {'T7': '($ν, $L, $G, $S, str, bool, (α, α))', 'T4': '($ν, $L, $G, bool)'}
+_AT = {'self._model.fittingParameters': ('model_fp', '{$ν: T7}'),
+       'self._observed.fittingParameters': ('obs_fp', '{$ν: T7}'),
+       'self._model.derivedParameters': ('model_dp', '{$ν: T4}'),
+       'self._observed.derivedParameters': ('obs_dp', '{$ν: T4}'),
+       'self._user_priors': ('user_priors', '{$ν: $ρ}'), 'self._fit_priors': ('fit_priors', '{$ν: $ρ}'),
+       'self.fitting_parameters': ('fitting_parameters', '[T7]'), 'self.fitting_priors': ('fitting_priors', '[$ρ]'),
+       'self.derived_parameters': ('derived_parameters', '[T4]')}
+_REFS = {'self._model': 0, 'self._observed': 1}
+_ENUM = {'PriorMode.LINEAR': ('PriorMode', 0), 'PriorMode.LOG': ('PriorMode', 1)}
+_PRIOR_OBJ = dict(obj_attrs={'ρ': {'priorMode': dict(lean='priorMode', ty='enum:PriorMode')}},
+                  obj_methods={'ρ': {'prior': dict(lean='prior_prior', args=['α'], ret='α')}}, enums=_ENUM)
+_LOG10 = {'math.log10()': dict(lean='math_log10', args=['α'], ret='α', raises=True)}
+_FP = ['self._model.fittingParameters', 'self._observed.fittingParameters']
+_DP = ['self._model.derivedParameters', 'self._observed.derivedParameters']
+
+
+def _m(func, **kw):
+    d = dict(module=_OPT, cls='Optimizer', func=func, lean='Optimizer_' + func, dialect='py', tvars=_TV, types=_TY, attrs=_AT,
+             refs=_REFS, world=('w', 'W'), params={})
+    d.update(kw)
+    return d
+
+
+SRC_SPECS = [
+    dict(module=_OPT, func='compile_params', lean='compile_params', callname='compile_params', dialect='py', tvars=_TV,
+         types=_TY, params=dict(fitparams='{$ν: T7}', driveparams='{$ν: T4}', fit_priors='{$ν: $ρ}'),
+         mutates=['fit_priors'],
+         externals={'LogUniform(lin_bounds=)': dict(lean='LogUniform_lin', args=['(α, α)'], ret='$ρ', raises=True),
+                    'Uniform(bounds=)': dict(lean='Uniform_bounds', args=['(α, α)'], ret='$ρ')}),
+    _m('compile_params', state=['self._fit_priors', 'self.fitting_parameters', 'self.fitting_priors',
+                                'self.derived_parameters']),
+    _m('update_model', params=dict(fit_params='[α]'), writes_world=True, **_PRIOR_OBJ),
+    _m('fit_values', externals=_LOG10, **_PRIOR_OBJ),
+    _m('fit_boundaries', externals=_LOG10, **_PRIOR_OBJ),
+    _m('fit_names', tvars=dict(_TV, **{'ν': None}), types={'T7': '(str, $L, $G, $S, str, bool, (α, α))'},
+       attrs={'self._fit_priors': ('fit_priors', '{str: $ρ}'),
+              'self.fitting_parameters': ('fitting_parameters', '[T7]')}, **_PRIOR_OBJ),
+    _m('derived_names'),
+    _m('enable_fit', params=dict(parameter='$ν'), state=_FP),
+    _m('disable_fit', params=dict(parameter='$ν'), state=_FP),
+    _m('enable_derived', params=dict(parameter='$ν'), state=_DP),
+    _m('disable_derived', params=dict(parameter='$ν'), state=_DP),
+    _m('set_boundary', params=dict(parameter='$ν', new_boundaries='(α, α)'), state=_FP),
+    _m('set_factor_boundary', params=dict(parameter='$ν', factors='(α, α)'), state=_FP),
+    _m('set_mode', params=dict(parameter='$ν', new_mode='str'), state=_FP),
+    _m('set_prior', params=dict(parameter='$ν', prior='$ρ'), state=['self._user_priors', 'self._fit_priors']),
+]
+
+
 def z1090():
     from scipy.special import ndtri
     return float(ndtri(0.1)), float(ndtri(0.9))
